@@ -26,8 +26,8 @@ NonTailP == [k \in 1..Len(NonTailT) |-> Parse(NonTailT[k])]
 NT == Len(TailT)
 
 ASSUME InitRegisters
-ASSUME TLCSet(3, TailP)
-ASSUME TLCSet(4, NonTailP)
+ASSUME TLCSet(3, Norm(TailP))
+ASSUME TLCSet(4, Norm(NonTailP))
 
 RECURSIVE Pow(_, _)
 Pow(b, e) == IF e = 0 THEN 1 ELSE b * Pow(b, e - 1)
